@@ -8,7 +8,8 @@
 package util
 
 // RemoveDuplicate (instantiated for string, as aa-log uses it): the result holds exactly
-// the non-empty elements of the input, each once, and is never longer than the input.
+// the non-empty elements of the input, each once, in the order of their first occurrence,
+// and is never longer than the input.
 //@ func RemoveDuplicate
 //@   opt prop=C14
 //@   opt instance=string
@@ -17,7 +18,9 @@ package util
 //@   loop 1 invariant forall_str(x, has(seen, x) == (x == "" || mem(list, x)))
 //@   loop 1 invariant forall_str(x, mem(list, x) == (x != "" && mem(inlist[:iter(1)], x)))
 //@   loop 1 invariant forall(i, 0, len(list), forall(j, i+1, len(list), list[i] != list[j]))
+//@   loop 1 invariant forall(i, 0, len(list), firstidx(inlist, list[i]) < iter(1) && forall(j, i+1, len(list), firstidx(inlist, list[i]) < firstidx(inlist, list[j])))
 //@   ensures forall_str(x, mem(result, x) == (x != "" && mem(inlist, x)))
+//@   ensures forall(i, 0, len(result), forall(j, i+1, len(result), firstidx(inlist, result[i]) < firstidx(inlist, result[j])))
 //@   ensures forall(i, 0, len(result), forall(j, i+1, len(result), result[i] != result[j]))
 //@   ensures len(result) <= len(inlist)
 
